@@ -77,6 +77,8 @@ class VariableEnvironment(BaseEnvironment):
         Returns False if the
         variable is not valid.
         """
+        if not name:
+            return False
         for count, i in enumerate(name):
             if count == 0 and i == "$":
                 if can_be_sys_var:
